@@ -138,6 +138,8 @@ def serde_names(m, indent):
     out = ""
     if m.get("renamed"):
         out += "\n%s#[sv::attr(serde(rename = \"%s\"))]" % (indent, m["wire"])
+    if m.get("ser") and m["ser"] != m["wire"]:
+        out += "\n%s#[sv::attr(serde(rename(serialize = \"%s\")))]" % (indent, m["ser"])
     for a in m.get("aliases", []):
         out += "\n%s#[sv::attr(serde(alias = \"%s\"))]" % (indent, a)
     return out
